@@ -490,7 +490,7 @@ def ring_check(pid, tier):
         c = res.get("counts", {})
         v.cov["parts"]["schedules:" + name] = {
             "replayed": res.get("evaluations", 0), "of": meta["maximal_schedules"], "steps": res.get("steps", 0),
-            "parks": c.get("parked", 0), "wakes": c.get("step:w", 0), "eof_returns": c.get("eof-returns", 0),
+            "chunking_differs": c.get("chunking_differs", 0), "parks": c.get("parked", 0), "wakes": c.get("step:w", 0), "eof_returns": c.get("eof-returns", 0),
             "lock_probes": c.get("lockprobes", 0), "mismatching": res.get("nmismatch", 0)}
         v.cov["evaluations"] += res.get("evaluations", 0)
         v.cov["traces_validated_against_impl"] += res.get("evaluations", 0)
@@ -815,7 +815,7 @@ def c08(tier):
 
 @check("C09")
 def c09(tier):
-    return broker_check("C09", tier, [("WillSpec", "paths", 6, 7, "mockSuccess"), ("WillSpec", "cover", 7, 8, "mockSuccess")], {"C09", "C01"},
+    return broker_check("C09", tier, [("WillSpec", "paths", 6, 7, "mockSuccess"), ("WillSpec", "cover", 7, 8, "mockSuccess")], {"C09", "C01", "C08", "C07"},   # in this configuration every retained message is a will
                         "configuration will: all sequences of connect (CleanSession x {no will, QoS 0, QoS 1 + retain, QoS 2 + empty payload}) / end (DISCONNECT, "
                         "cut, malformed packet) on one client id, witness subscribed to '#'; the will deliveries per connection end are compared.")
 
@@ -843,7 +843,7 @@ CONSTANTS
  Gaps = {2, 4, 5, 9}
  LongGaps = {26}
  MaxSends = %d
- Kinds = {"ping", "pub"}
+ Kinds = {"ping", "pub", "part1", "part3"}
 INVARIANTS SilentDropped WillIffExpired Emit
 PROPERTIES ActiveNeverDropped
 """
